@@ -1,5 +1,7 @@
 import Vata.Spec
 import Vata.Proofs.SimModel
+import Vata.Proofs.TaLts
+import Vata.Proofs.Equivariance
 /-!
 # C04 – Tree-automata simulations returned are the greatest downward/upward simulations
 
@@ -82,17 +84,104 @@ theorem C04_downward_simulation_language (A : TA) (S : Nat → Nat → Prop) (hS
 
 example : (2, 3) ∈ downSimRef SimModel.exA ∧ 2 ∈ reach SimModel.exA (.node 1 [.node 0 [], .node 0 []]) := by decide
 
+/-! ## the route of the C++: translation to an LTS, LTS engine, reading the result back
+
+`TaLts.translateDownward A size idx` / `TaLts.translateUpward A idx` (`Vata/TaLts.lean`) mirror `TranslateDownward` /
+`TranslateUpward` of `src/explicit_tree_transl.hh` (nodes for the states through the translation map `idx`, one node per
+child tuple of length `≠ 1` resp. one node per environment plus the leaf node, symbol and position labels, the initial
+partition and the relation on its blocks); `TaLts.downSimViaLts` / `TaLts.upSimViaLts` add the LTS engine – represented
+by its specification `ltsSimRef` (C16), output restricted to the indices `< size` – and the reading back through the
+translation map (`StateDiscontBinaryRelation(ltsSim, translMap)`).  `TaLts.IdxOk A b idx`: `idx` is injective on
+`A.states` with values `< b`. -/
+
+/-- downward route: for a ranked automaton (each symbol has one arity – always the case for the explicit encoding, whose
+symbols are (name, rank) pairs) and EVERY numbering of the states that is injective with values below the `size` passed,
+the relation obtained through the LTS is `downSimRef A`, the greatest downward simulation -/
+theorem C04_downward_via_lts (A : TA) (size : Nat) (idx : Nat → Nat) (hidx : TaLts.IdxOk A size idx)
+    (hrk : TaLts.Ranked A) :
+    (∀ q r, q ∈ A.states → r ∈ A.states →
+      ((idx q, idx r) ∈ L.ltsSimOut (TaLts.translateDownward A size idx)
+        (L.fullRel (TaLts.translateDownward A size idx).n) size ↔ (q, r) ∈ downSimRef A)) ∧
+    ∀ q r, (q, r) ∈ TaLts.downSimViaLts A size idx ↔ (q, r) ∈ downSimRef A :=
+  ⟨fun q r hq hr => TaLts.translateDownward_correct A size idx hidx hrk q r hq hr,
+   fun q r => TaLts.downSimViaLts_iff A size idx hidx hrk q r⟩
+
+example : TaLts.IdxOk TaLtsEx.exA 5 (TaLtsEx.perm [3, 0, 4, 1, 2]) ∧ TaLts.Ranked TaLtsEx.exA ∧
+    (2, 3) ∈ TaLts.downSimViaLts TaLtsEx.exA 5 (TaLtsEx.perm [3, 0, 4, 1, 2]) :=
+  ⟨TaLts.idxOkB_iff.mp (by decide), TaLts.rankedB_iff.mp (by decide), by decide⟩
+
+/-- the hypothesis "ranked" cannot be dropped: with one symbol used with two arities the downward encoding relates
+states that no downward simulation relates -/
+theorem C04_downward_via_lts_needs_ranked :
+    TaLts.IdxOk TaLtsEx.exU 3 id ∧ ¬ TaLts.Ranked TaLtsEx.exU ∧
+    (1, 2) ∈ TaLts.downSimViaLts TaLtsEx.exU 3 id ∧ (1, 2) ∉ downSimRef TaLtsEx.exU :=
+  TaLts.translateDownward_unranked_counterexample
+
+/-- upward route (the repaired code): for an automaton in which every state owns a rule (true without useless states) and
+EVERY numbering of the states that is injective with values `< N`, `N` = the number of states owning a rule
+(`transitions_->size()`), `N ≤ size`: the relation obtained through the LTS is `upSimRef A`, the greatest upward
+simulation -/
+theorem C04_upward_via_lts (A : TA) (size : Nat) (idx : Nat → Nat)
+    (hidx : TaLts.IdxOk A (TaLts.parents A).length idx) (hsize : (TaLts.parents A).length ≤ size)
+    (hown : TaLts.AllOwnRule A) :
+    (∀ q r, q ∈ A.states → r ∈ A.states →
+      ((idx q, idx r) ∈ L.ltsSimOut (TaLts.translateUpward A idx).1
+        (TaLts.blockRel (TaLts.translateUpward A idx).2.1 (TaLts.translateUpward A idx).2.2) size ↔
+       (q, r) ∈ upSimRef A)) ∧
+    ∀ q r, (q, r) ∈ TaLts.upSimViaLts A size idx ↔ (q, r) ∈ upSimRef A :=
+  ⟨fun q r hq hr => TaLts.translateUpward_correct A size idx hidx hsize hown q r hq hr,
+   fun q r => TaLts.upSimViaLts_iff A size idx hidx hsize hown q r⟩
+
+example : TaLts.IdxOk TaLtsEx.exB (TaLts.parents TaLtsEx.exB).length (TaLtsEx.perm [2, 9, 3, 1, 0]) ∧
+    (TaLts.parents TaLtsEx.exB).length ≤ 4 ∧ TaLts.AllOwnRule TaLtsEx.exB ∧
+    (3, 4) ∈ TaLts.upSimViaLts TaLtsEx.exB 4 (TaLtsEx.perm [2, 9, 3, 1, 0]) :=
+  ⟨TaLts.idxOkB_iff.mp (by decide), by decide, TaLts.allOwnRuleB_iff.mp (by decide), by decide⟩
+
+/-- consequently the relations do not depend on the numbering chosen by the translation map -/
+theorem C04_via_lts_numbering_independent (A : TA) (size : Nat) (idx idx' : Nat → Nat) :
+    (TaLts.IdxOk A size idx → TaLts.IdxOk A size idx' → TaLts.Ranked A →
+      ∀ q r, (q, r) ∈ TaLts.downSimViaLts A size idx ↔ (q, r) ∈ TaLts.downSimViaLts A size idx') ∧
+    (TaLts.IdxOk A (TaLts.parents A).length idx → TaLts.IdxOk A (TaLts.parents A).length idx' →
+      (TaLts.parents A).length ≤ size → TaLts.AllOwnRule A →
+      ∀ q r, (q, r) ∈ TaLts.upSimViaLts A size idx ↔ (q, r) ∈ TaLts.upSimViaLts A size idx') :=
+  ⟨fun h h' hrk q r => (TaLts.downSimViaLts_iff A size idx h hrk q r).trans
+      (TaLts.downSimViaLts_iff A size idx' h' hrk q r).symm,
+   fun h h' hs ho q r => (TaLts.upSimViaLts_iff A size idx h hs ho q r).trans
+      (TaLts.upSimViaLts_iff A size idx' h' hs ho q r).symm⟩
+
+example : TaLts.IdxOk TaLtsEx.exB 4 (TaLtsEx.perm [2, 9, 3, 1, 0]) ∧ TaLts.IdxOk TaLtsEx.exB 4 (TaLtsEx.perm [0, 9, 1, 2, 3]) ∧
+    TaLts.Ranked TaLtsEx.exB ∧ TaLts.AllOwnRule TaLtsEx.exB ∧ (TaLts.parents TaLtsEx.exB).length = 4 :=
+  ⟨TaLts.idxOkB_iff.mp (by decide), TaLts.idxOkB_iff.mp (by decide), TaLts.rankedB_iff.mp (by decide),
+    TaLts.allOwnRuleB_iff.mp (by decide), by decide⟩
+
+/-- the code BEFORE the repair of `TranslateUpward` (finding D3: `stateIndex[envIndexPair.first.state_]` translates the
+parent of an environment a second time) returns a wrong relation for a non-identity numbering, and the right one for the
+identity numbering – which is why the defect is invisible when the states are met in the order `0, 1, 2, …` -/
+theorem C04_upward_via_lts_old_code_wrong :
+    TaLts.IdxOk TaLtsEx.exB (TaLts.parents TaLtsEx.exB).length (TaLtsEx.perm [2, 9, 3, 1, 0]) ∧
+    (TaLts.parents TaLtsEx.exB).length = 4 ∧ TaLts.AllOwnRule TaLtsEx.exB ∧
+    (∀ e, e ∈ TaLts.envList TaLtsEx.exB (TaLtsEx.perm [2, 9, 3, 1, 0]) → e.state ∈ TaLtsEx.exB.states) ∧
+    (2, 4) ∈ TaLts.upSimViaLtsOld TaLtsEx.exB 4 (TaLtsEx.perm [2, 9, 3, 1, 0]) ∧
+    (2, 4) ∉ upSimRef TaLtsEx.exB ∧
+    (2, 4) ∉ TaLts.upSimViaLts TaLtsEx.exB 4 (TaLtsEx.perm [2, 9, 3, 1, 0]) ∧
+    TaLts.upSimViaLtsOld TaLtsEx.exB 4 id = TaLts.upSimViaLts TaLtsEx.exB 4 id :=
+  TaLts.translateUpward_old_counterexample
+
 /-!
 ## not yet proved
 
-* **Independence of the numbering** as a theorem (`downSimRef (reindex f A)` is the `f`-image of `downSimRef A` for `f`
-  injective on the states, same for `upSimRef`).  The characterisations above are stated without reference to any
-  numbering, which is the reason it holds, but the transport lemma for `DownSim`/`IsUpSim` along `reindex` is not
-  proved.  (The check compares the real output on renamed twins, C19.)
-* The **route of the C++** – translation of the automaton to an LTS (`TranslateDownward`, `TranslateUpward` with
-  environment nodes and the initial partition), the LTS engine (C16) and the re-indexing of the result through
-  `DiscontBinaryRelation` – is not modelled; `downSimRef`/`upSimRef` are direct refinements on the automaton.  That the
-  LTS encodings have the same greatest simulation as `DownSim`/`IsUpSim` is not proved.
+* Independence of the numbering chosen by the translation map inside `ComputeSimulation` is `C04_via_lts_numbering_independent`;
+  independence under renaming of the automaton itself is `C04_numbering_independent`.
+* **The LTS engine** inside the route is represented by its specification `ltsSimRef` (greatest simulation inside the
+  initial relation, C16), not by a model of the partition-refinement code; the initial relation given by the partition
+  and the relation on its blocks is `TaLts.blockRel` (`x`, `y` related iff some blocks `i ∋ x`, `j ∋ y` are related).
+  The induced initial relation of `TranslateUpward` is proved to be a preorder on the nodes (`TaLts.upInit_refl`,
+  `TaLts.upInit_trans`); that the partition is a partition of ALL nodes `0..n-1` into non-empty blocks and that the relation
+  on the block numbers is itself reflexive and transitive (the preconditions of the engine as the C16 check states them)
+  is only tested (`#guard upOkB …` in `Vata/TaLts.lean`), not proved.
+* The numberings "in order of first encounter" of the C++ hash tables are modelled by the order of `A.rules`; the
+  environment table of `TranslateUpward` is modelled with all four fields of `Env` as the key (the C++ hashes all four but
+  its `operator==` omits `state_`; with cached hash codes this is the same unless two 64-bit hashes collide).
 * Outside `A.states` (e.g. numbers below `n` that occur nowhere in the automaton) the model relation is empty; what
   the C++ reports for such indices is not covered.
 -/
